@@ -33,6 +33,9 @@ CHECKS.update({
  "C15": ("exploration", "E1 chains", "exhaustive enumeration of narrowing chains of selections per credential with a differential oracle (narrowed vs direct)",
    "Every pair D1 >= D2 (and chains of length 3; thorough: 4) of type-consistent selections on every credential of the scope: a holder built from the previous presentation must return the same disclosure multiset and verified claims as selecting directly from the issued SD-JWT. Quick: S(3,3) x {All,Top,every Custom subset} pairs, S(2,2) chains of 3, depth chains; thorough adds S(3,3) chains of 3, S(2,2) chains of 4, S(4,3) pairs.",
    "presentations without key-binding JWT, as the property states", "4 C15"),
+ "C08": ("fault_enumeration", "E3 signed-structure enumeration", "exhaustive fault enumeration over a deviation catalogue applied to well-formed signed structures, real verifier compared with an independent transcription of the specification's algorithm",
+   "8 well-formed base structures (flat, nested, arrays, object-in-array, disclosure-in-disclosure, nested arrays, everything) x every single deviation and every pair of deviations of the catalogue (_sd list shape, placeholder shape, _sd_alg top/nested, disclosure decoded form of length 0..5 with every type at the name slot, reserved/colliding names, wrong container kind, duplicates, unreferenced) x 2 formats, signed by the harness with the test key. Model Reject => Err required; model Claims/May => Ok must carry exactly the model's claims; Panic never.",
+   "spec_verify is the harness's transcription of draft-07 8.1 step 3; jsonwebtoken correct", "4 C08"),
 })
 NOT_YET = {}
 def main():
